@@ -517,7 +517,7 @@ def corr_molecules(ck):
     pool = [s for s in corpus.sample(corpus.lipo(), 400 if quick else 3000, ck.seed, 'c17corr')]
     n_corpus = 0
     for smi in pool:
-        if n_corpus >= (30 if quick else 300):
+        if n_corpus >= (30 if quick else 200):
             break
         m = parse(smi)
         if m is None or len(m._atoms) > 30:
@@ -528,7 +528,7 @@ def corr_molecules(ck):
             mols.append(('corpus-renumbered:' + smi, None, renumbered(m, rng)))
         if n_corpus % 3 == 1:
             mols.append(('corpus-order-shuffled:' + smi, None, order_shuffled(m, rng)))
-    for i in range(30 if quick else 300):
+    for i in range(30 if quick else 200):
         k = rng.choice([1, 2, 3, 4, 4, 5, 5, 6, 6, 7])
         mols.append((f'generated-graph:{i}:{k}', None, random_graph_mol(rng, k)))
     per_mol = []
